@@ -34,7 +34,7 @@ func registerC19() {
 		Level: "exploration",
 		Rule: "the fitgen command is built from the working tree and run on the 5 bundled SDK workbooks and on variants in which the product cell (column P) of a PRNG, " +
 			"dependency-closed subset of enabled field and sub-field rows - PRNG subsets of 1-140 rows and class-wide selections (every date_time row, every local_date_time row, every array, every string, every coordinate, every row with components, every sub-field, the first / last row of every message, every other row, all unsigned / signed integer rows, everything but timestamps, every field of half of the messages, every scaled scalar row, every scaled row, every unscaled row, single-message products: file_id plus one message - quick: one message per distinct feature signature, thorough: every message; these get one run plus an in-process type check of the generated package with go/types instead of the full treatment) - is rewritten to 0 or emptied (everything else in the workbook byte-identical); each configuration is run " +
-			"four times into fresh directories (.xlsx with -sdk, and wrapped as FitSDKRelease_X.Y.zip; twice each). Oracles: exit status 0; the four output files byte-identical " +
+			"four times into fresh directories (.xlsx with -sdk, and wrapped as FitSDKRelease_X.Y.zip - an archive that holds a directory entry, other files of the release and, in two of three, a macOS AppleDouble companion `._Profile.xlsx` behind the workbook; twice each). Oracles: exit status 0; the four output files byte-identical " +
 			"across all runs; SDK version in header and constants; the generated files compile together with the library's support code (accumu, pfield, latlng, time, types_man, " +
 			"internal/types) in a scratch module, and a dump program linked against them prints every message's struct fields and table entries, which are compared with the " +
 			"harness's independent reading of the variant workbook (i-th enabled row <-> i-th struct field, entry = {i, field number, base type, array flag}; nothing for disabled " +
@@ -643,8 +643,25 @@ func c19Run(repo, fitgen, dir string, cfg c19Config) (string, c19Info) {
 	{
 		var zb bytes.Buffer
 		zw := zip.NewWriter(&zb)
+		// round 13: the archive holds more than the workbook - a directory entry and other files
+		// of the release in front of it and, in two archives of three, what re-packing on a Mac
+		// appends behind it: an AppleDouble companion `__MACOSX/.../._Profile.xlsx` that is no
+		// workbook at all. The workbook of the release is the first entry of that name.
+		zw.Create("FitSDKRelease_" + cfg.version + "/")
+		if w, err := zw.Create("FitSDKRelease_" + cfg.version + "/Readme.txt"); err == nil {
+			w.Write([]byte("FIT SDK " + cfg.version + "\n"))
+		}
 		w, _ := zw.Create("FitSDKRelease_" + cfg.version + "/Profile.xlsx")
 		w.Write(data)
+		if w, err := zw.Create("FitSDKRelease_" + cfg.version + "/c/fit.h"); err == nil {
+			w.Write([]byte("/* fit.h */\n"))
+		}
+		if (cfg.variant+len(cfg.version))%3 != 0 {
+			zw.Create("__MACOSX/")
+			if w, err := zw.Create("__MACOSX/FitSDKRelease_" + cfg.version + "/._Profile.xlsx"); err == nil {
+				w.Write(append([]byte{0x00, 0x05, 0x16, 0x07, 0x00, 0x02, 0x00, 0x00}, []byte("Mac OS X        \x00\x02\x00\x00\x00\x09ATTR com.apple.quarantine")...))
+			}
+		}
 		zw.Close()
 		os.WriteFile(zipPath, zb.Bytes(), 0o644)
 	}
